@@ -11,7 +11,7 @@ import (
 func init() {
 	register(&Check{
 		ID: "C09", Level: "exploration", QuickSecs: 170, ThoroughSecs: 1500,
-		Rule:        "grammars S <- body ; A <- ... ; B <- ... where body ranges over all expressions (nested choices and sequences allowed) over {'a','b',\"ab\",'a'i,[ab],[^a],[^b],[b]i,.,A,B} x {?,*,+,&,!} up to N nodes (4; thorough adds every 11th 5-node body), A and B over the leaf-rule bodies {'a', \"ab\", [ab], 'a' 'b', 'a'/'b', [^a], x:'a'{act}, 'b'i}; every single label+action decoration of the body; every subset of {A,B} as -alternate-entrypoints and every usable entrypoint at run time; all inputs over {a,b} up to L=3 (4). Unoptimized build vs -optimize-grammar build (real vs real) and both vs the reference: same success, same consumed prefix, same action invocations (id, pos, text, flat label values) in the same order, same flat value (regrouping of action-less structure is invisible, action-made values are not). Non-trivial = the optimizer changed the emitted grammar (expression count differs) and the input is matched or backtracks.",
+		Rule:        "grammars S <- body ; A <- ... ; B <- ... where body ranges over all expressions (nested choices and sequences allowed) over {'a','b',\"ab\",'a'i,[ab],[^a],[^b],[b]i,.,A,B} x {?,*,+,&,!} up to N nodes (4; thorough adds every 11th 5-node body), A and B over the leaf-rule bodies {'a', \"ab\", [ab], 'a' 'b', 'a'/'b', [^a], x:'a'{act}, 'b'i}; every single label+action decoration of the body; a two-site family (one leaf rule - class with range, class, literal - inlined at two places next to DIFFERENT neighbours the optimizer merges it with, 4 shapes, inputs over {a,b,c}); a same-name label family (labelled leaf rule inlined next to equally named labels of the enclosing rule, 6 shapes); every subset of {A,B} as -alternate-entrypoints and every usable entrypoint at run time; all inputs over {a,b} up to L=3 (4). Unoptimized build vs -optimize-grammar build (real vs real) and both vs the reference: same success, same consumed prefix, same action invocations (id, pos, text, flat label values) in the same order, same flat value (regrouping of action-less structure is invisible, action-made values are not). Non-trivial = the optimizer changed the emitted grammar (expression count differs) and the input is matched or backtracks.",
 		Assumptions: []string{"E1 loader", "flat value rendering: concatenated matched bytes, action-made values kept"},
 		Run:         runC09,
 	})
@@ -124,6 +124,78 @@ func runC09(c *ShardCtx) {
 			}
 		}
 		return g
+	}
+	// two-site family: one leaf rule inlined at two places, each next to a different
+	// neighbour the optimizer merges it with (and a sequence/class variant)
+	{
+		lit := peg.Lit
+		leafs := []func() *peg.Expr{
+			func() *peg.Expr { return peg.Cls(false, false, "a-b") }, func() *peg.Expr { return peg.Cls(false, false, "a", "b") }, func() *peg.Expr { return peg.Cls(false, false, "a") },
+			func() *peg.Expr { return lit("a") }, func() *peg.Expr { return peg.Cls(false, true, "a-b") }, func() *peg.Expr { return lit("ab") }, func() *peg.Expr { return peg.Cls(true, false, "c") },
+		}
+		nbrs := []func() *peg.Expr{func() *peg.Expr { return lit("b") }, func() *peg.Expr { return lit("c") }, func() *peg.Expr { return peg.Cls(false, false, "c") }, func() *peg.Expr { return peg.LitI("c") }, func() *peg.Expr { return lit("bc") }}
+		inputs3 := peg.Inputs([]string{"a", "b", "c"}, 3)
+		saved := inputs
+		inputs = inputs3
+		for _, lf := range leafs {
+			for xi, x := range nbrs {
+				for yi, y := range nbrs {
+					if xi == yi {
+						continue
+					}
+					if c.Expired("two-site family") {
+						return
+					}
+					ch := func(n func() *peg.Expr, leafFirst bool) *peg.Expr {
+						if leafFirst {
+							return peg.Choice(peg.Ref("A"), n())
+						}
+						return peg.Choice(n(), peg.Ref("A"))
+					}
+					for _, lfirst := range []bool{true, false} {
+						shapes := []*peg.Grammar{
+							{Rules: []*peg.Rule{{Name: "S", Expr: peg.Seq(ch(x, lfirst), ch(y, lfirst))}, {Name: "A", Expr: lf()}}},
+							{Rules: []*peg.Rule{{Name: "S", Expr: peg.Seq(peg.Plus(ch(x, lfirst)), peg.Lit("c"), peg.Star(ch(y, lfirst)))}, {Name: "A", Expr: lf()}}},
+							{Rules: []*peg.Rule{{Name: "S", Expr: peg.Seq(peg.Ref("B"), peg.Lit("c"), peg.Ref("T"))}, {Name: "B", Expr: peg.Plus(ch(x, lfirst))}, {Name: "T", Expr: peg.Plus(ch(y, lfirst))}, {Name: "A", Expr: lf()}}},
+							{Rules: []*peg.Rule{{Name: "S", Expr: peg.Choice(peg.Seq(peg.Ref("A"), x()), peg.Seq(peg.Ref("A"), y()))}, {Name: "A", Expr: lf()}}},
+						}
+						for _, g := range shapes {
+							alts := [][]string{nil}
+							if g.Rule("B") != nil {
+								alts = append(alts, []string{"B", "T"}, []string{"A", "T"})
+							} else {
+								alts = append(alts, []string{"A"})
+							}
+							one(g, alts)
+						}
+					}
+				}
+			}
+		}
+		// same-name labels: a labelled leaf rule inlined next to an equally named label
+		terms := []func() *peg.Expr{func() *peg.Expr { return lit("a") }, func() *peg.Expr { return peg.Cls(false, false, "a", "b") }, func() *peg.Expr { return lit("b") }}
+		for _, t := range terms {
+			for _, u := range terms {
+				if c.Expired("same-name label family") {
+					return
+				}
+				leaf := func() *peg.Rule {
+					return &peg.Rule{Name: "L", Expr: peg.Action(0, peg.Seq(peg.Label("x", u()), peg.Label("y", peg.Opt(lit("c")))))}
+				}
+				for _, body := range []*peg.Expr{
+					peg.Action(0, peg.Seq(peg.Label("x", t()), peg.Ref("L"), peg.Label("z", peg.Opt(lit("b"))))),
+					peg.Action(0, peg.Seq(peg.Ref("L"), peg.Label("x", t()))),
+					peg.Action(0, peg.Seq(peg.Label("x", t()), peg.Star(peg.Ref("L")), peg.Label("y", peg.Opt(lit("a"))))),
+					peg.Action(0, peg.Seq(peg.Label("y", t()), peg.Ref("L"), peg.Ref("L"))),
+					peg.Action(0, peg.Seq(peg.Label("x", t()), peg.Label("w", peg.Ref("L")), peg.AndCode(0))),
+					peg.Choice(peg.Action(0, peg.Seq(peg.Label("x", t()), peg.Ref("L"), lit("c"))), peg.Action(0, peg.Seq(peg.Label("x", t()), peg.Ref("L")))),
+				} {
+					g := &peg.Grammar{Rules: []*peg.Rule{{Name: "S", Expr: body.Clone()}, leaf()}}
+					one(g, [][]string{nil})
+				}
+			}
+		}
+		inputs = saved
 	}
 	for size := 1; size <= n+1; size++ {
 		for bi, body := range en.Size(size) {
